@@ -168,7 +168,7 @@ func c19Installer(c *h.Ctx, id string, r *rand.Rand) {
 		}
 		return map[string]any{"initial_graph": fmt.Sprintf("n=%d edges=%v", n, edges), "current_graph": s.graphDesc(), "events": ev}
 	}
-	prefixes := []string{"/app/a", "/app/b", "/app/a/x", "/other"}
+	prefixes := []string{"/app/a", "/app/b", "/app/a/x", "/other", "/"} // "/": a router announcing the default route
 	if r.Intn(2) == 0 {
 		// dense multi-homing: every router announces a random half of the prefixes, so that several
 		// prefixes are reachable through different sets of exit routers
@@ -176,6 +176,9 @@ func c19Installer(c *h.Ctx, id string, r *rand.Rand) {
 			for _, ps := range prefixes {
 				if r.Intn(2) == 0 {
 					pn, _ := enc.NameFromStr(ps)
+					if pn == nil {
+						pn = enc.Name{}
+					}
 					if !s.prefixOp(i, pn, true) {
 						c.Inconclusive(s.bad)
 						return
@@ -210,6 +213,9 @@ func c19Installer(c *h.Ctx, id string, r *rand.Rand) {
 				continue
 			}
 			pn, _ := enc.NameFromStr(prefixes[r.Intn(len(prefixes))])
+			if pn == nil {
+				pn = enc.Name{}
+			}
 			ann := r.Intn(3) != 0
 			what = fmt.Sprintf("prefix op at r%d", i)
 			if !s.prefixOp(i, pn, ann) {
